@@ -86,11 +86,15 @@ def run(prog, tier) -> Result:
         "in a usable position. R09.2: on every normal exit of the constructor the rejection guards have been passed "
         "(identical currencies, non-integral multiple, multiple < 1, amount <= 0 / < 0.000001, wrong argument "
         "types). R09.3: the stored multiple is 10**<int> and the stored amount is the 6-digit rounding of "
-        "input amount * stored multiple / input multiple (rate preserved up to one rounding in the sixth decimal).")
+        "input amount * stored multiple / input multiple (rate preserved up to one rounding in the sixth decimal). "
+        "R09.5: the stored multiple is >= 1 and the stored amount >= 0.1 (magnitude >= -1, hence positive) for every "
+        "input: log10 of the stored values is bounded symbolically - every base quantity q as M_q + F_q with integer "
+        "magnitude M_q and 0 <= F_q < 1, powers of ten by their integer exponent expressions, min() by cases - under "
+        "the comparison facts of the path.")
     res.trusted = ["Decimal(x, 6) rounds once to six fractional digits (dependency)"]
-    res.assumptions = ["NOT decided (run-time magnitudes behind floor(log10(.))): stored multiple >= 1, amount "
-                       "magnitude >= -1, positivity after rounding, numeric accuracy of inverted/triangulated rates; "
-                       "ExchangeRate(EUR, 5, USD, Decimal('0.3')) stores 0.06 (magnitude -2) - outside the claimed clauses"]
+    res.assumptions = ["magnitude, adjusted() and int(floor(log10(x))) denote floor(log10 x) exactly (float log10 at "
+                       "exact powers of ten is trusted)",
+                       "NOT decided: numeric accuracy of inverted/triangulated rates beyond 'rounded exactly once'"]
     cr = CaseRunner(prog, res, max_depth=8 if tier == "quick" else 12)
     ER = lambda n: prog.method("ExchangeRate", n)
 
@@ -225,13 +229,31 @@ def run(prog, tier) -> Result:
                 if not isinstance(sm, Num) or not isinstance(sa, Num):
                     return ("multiple / amount not stored", f"{sm!r}, {sa!r}")
                 m = st.norm(sm.rf)
-                ats = list(m.atoms())
-                if not (len(ats) == 1 and ats[0][0] == "pw10" and m.equals(RF.atom(ats[0]))):
-                    return ("stored multiple is not a power of ten by construction", repr(m))
+                from ..magnitude import Magnitudes, Unsupported as MagUnsupported
+                mg = Magnitudes(st)
+                try:
+                    lm = mg.log_of(m)
+                except MagUnsupported as e:
+                    return ("stored multiple is not a power of ten by construction", f"{m!r}: {e}")
+                if lm.part(("F",)).coef:
+                    return ("stored multiple is not a power of ten by construction",
+                            f"{m!r}: its log10 {lm!r} is not an integer expression")
                 want = st.rnd(6, ta * m / um)
                 if not st.norm(sa.rf).equals(want):
                     return ("stored amount is not the 6-digit rounding of amount*multiple/input multiple",
                             f"stored {st.norm(sa.rf)!r} = rnd6({st.expand_rnd(sa.rf)!r}); contract rnd6({(ta * m / um)!r})")
+                # R09.5 magnitudes of the normal form (symbolic log10 bounds under the facts of the path)
+                lo, why = Magnitudes(st).lower_bound(m)
+                if lo is None or lo < 0:
+                    return ("stored multiple may be below one",
+                            f"log10 of the stored multiple {m!r} is only known to be >= {lo} ({why})")
+                x = st.norm(ta * m / um)
+                if not established(x - RF.const(Fraction(1, 10)), ">=", True):
+                    lo, why = Magnitudes(st).lower_bound(x)
+                    if lo is None or lo < -1:
+                        return ("stored amount may have a magnitude below -1",
+                                f"amount before rounding = {x!r}; log10 is only known to be >= {lo} ({why}); "
+                                f"contract: term amount >= 0.1, i.e. magnitude >= -1")
                 return None
             cr.run("R09.2", init, f"__init__ amount {akind}, multiple {ukind}", setup, judge,
                    inline_rate_ctor=True, flag_kinds=("none-operand", "none-attribute", "bad-unpack"))
